@@ -229,9 +229,16 @@ def _cross_case(sql):
     # the same statement with the table / column names in another letter case: different names, so nothing built from one
     # spelling may compare equal to its counterpart built from the other
     sql_case = _re.sub(r'\b(int[12]\.)(\w+)', lambda m_: m_.group(1) + m_.group(2).capitalize(), sql)
+    # ... and the statement with an optional clause taken away (objects that differ in ONE field: an attribute that one of
+    # them simply does not have must not make the comparison depend on which side is asked)
+    variants = [sql, sql_case]
+    for pat in (r'\swhere\s.*$', r'\slimit\s+\d+\s*$', r'\son\s+[\w.]+\s*=\s*[\w.]+'):
+        v_ = _re.sub(pat, '', sql, flags=_re.I)
+        if v_ != sql and v_ not in variants:
+            variants.append(v_)
     objs = []
-    for text in (sql, sql_case):
-        for kw in (cats if text == sql else cats[:1]):
+    for text in variants:
+        for kw in (cats if text != sql_case else cats[:1]):
             try:
                 tree = parse_sql(text, 'mindsdb')
                 p = plan_query(parse_sql(text, 'mindsdb'), **kw)
